@@ -56,6 +56,13 @@ def check(ctx):
 
     _c03_check(ctx)
     converter_unhashable(ctx)
+    # ---------------- round 4b (C01-m7): Alias(key, target) defaults the target by identity, not truthiness
+    from ..lib import find as _f4, eqv as _e4
+    ts4 = ctx.model.module("dask/_task_spec.py")
+    ai4 = ctx.model.klass("dask/_task_spec.py", "Alias").own_methods["__init__"]
+    ifs4 = [n for n in ast.walk(ai4) if isinstance(n, ast.If) and any(isinstance(s_, ast.Assign) and _e4(s_.value, "key") and _e4(s_.targets[0], "target") for s_ in n.body)]
+    ok = len(ifs4) == 1 and _e4(ifs4[0].test, "target is None")
+    ctx.ob("DOM.alias.default-target.is-none", ifs4[0] if ifs4 else ai4, "Alias.__init__ replaces the target by the key only when `target is None`", ok, "" if ok else "a truthiness test also replaces the legal keys 0, '', () and 0.0: Alias('a', 0) becomes a self-alias, is dropped from the graph and every scheduler fails to find 'a'")
 
 
 def _get_async_calls(func):
